@@ -739,8 +739,8 @@ impl<'c> Interp<'c> {
 
     pub(crate) fn op_vec(&mut self, api: &dyn Api, r: &Rec) {
         let (p0, len0, cap0, seed0) = self.vec.unwrap_or((0, 0, 0, self.seed_for(r)));
-        let op = r.b(4) % 6;
-        let op = if op == 5 { 3 } else { op };
+        let op = r.b(4) % 9;
+        let op = if op == 5 || op == 8 { 3 } else { op };
         let n = 1 + r.u16(6) % 40;
         let route = self.route_from(r);
         let what = format!("vec op {op} n={n} on BumpVec<u64>(ptr {p0:#x} len {len0} cap {cap0}) via {route:?}");
@@ -769,7 +769,7 @@ impl<'c> Interp<'c> {
             if op == 4 {
                 self.vec = None;
             } else {
-                if !ok && (p, len, cap) != (p0, len0, cap0) && op != 3 {
+                if !ok && (p, len, cap) != (p0, len0, cap0) && !matches!(op, 3 | 6 | 7) {
                     self.fail("C07/collection-state-after-failure", format!("{what}: failed operation changed the vector: ({p0:#x},{len0},{cap0}) -> ({p:#x},{len},{cap})"));
                 }
                 if len > cap {
@@ -804,6 +804,10 @@ impl<'c> Interp<'c> {
             }
         }
         self.after_op(api, Some(&pre), true, false, &what);
+        // C13: with SHRINKS = false no shrink operation gives memory back
+        if matches!(op, 2 | 6 | 7) && !api.x_info().sh && !self.stop && self.last.allocated < pre.allocated {
+            self.fail("C13/shrink-optout", format!("{what}: SHRINKS = false but allocated() went from {} to {}", pre.allocated, self.last.allocated));
+        }
     }
 
     pub(crate) fn op_foreign(&mut self, api: &dyn Api, r: &Rec) {
